@@ -216,8 +216,7 @@ template <typename Dom> std::string show_rsites(ctx &c, Dom &d, const z_var &rgn
 
 template <typename Dom> std::string show_state(ctx &c, Dom &d) {
   if (d.is_bottom()) return "_|_";
-  std::string r = d.is_top() ? "T " : "";
-  r += "I:";
+  std::string r = "I:";
   for (size_t i = 0; i < c.I.size(); ++i) { r += (i ? "|" : ""); r += str(d.at(c.I[i])); }
   r += " B:";
   for (size_t i = 0; i < c.B.size(); ++i) { r += (i ? "|" : ""); r += str(d.at(c.B[i])); }
